@@ -258,10 +258,20 @@ def execute(case):
     for n, o in enumerate(case['ops']):
         op = o['op']
         h = o['h']
+        if op == 'nohandle':
+            real.append(None)
+            model.append(None)
+            continue
         if h >= len(real) or real[h] is None:
+            if op in ('copy', 'first_handle'):
+                real.append(None)       # a handle slot is consumed even when the target is dead
+                model.append(None)
             continue
         r, m = real[h], model[h]
         if r.type != 'loop':
+            if op in ('copy', 'first_handle'):
+                real.append(None)
+                model.append(None)
             continue
         evals += 1
         log.ev('op', op, h, o.get('path'), o.get('seg'))
@@ -307,6 +317,9 @@ def execute(case):
                 # ---- compare
                 if mbad:
                     outcome = 'invalid'
+                    if op == 'first_handle':
+                        real.append(None)       # keep the handle numbering of the generator
+                        model.append(None)
                     if rexc is None and rres not in (None, False, 0, []):
                         out.violate('api', 'invalid-path-answered|%s' % op, '%s: malformed path answered %r' % (tag, rres))
                         break
@@ -374,6 +387,9 @@ def execute(case):
                             else:
                                 real.append(None)
                                 model.append(None)
+                    elif op == 'first_handle':
+                        real.append(None)       # the call raised X12PathError: still one handle slot
+                        model.append(None)
                     if op == 'delete_node' and rexc is None:
                         if bool(rres) != (nsel > 0):
                             out.violate('api', 'delete-node-result|%s' % shape, '%s -> %r, model finds %d candidates' % (tag, rres, nsel))
@@ -493,8 +509,20 @@ def fin(out, log, evals):
 
 def shrink(case, still):
     best = dict(case)
-    ops = core.ddmin(best['ops'], lambda sub: still(dict(best, ops=sub)), 150)
-    return dict(best, ops=ops)
+    ops = best['ops']
+    idx = list(range(len(ops)))
+
+    def build(keep):
+        ks = set(keep)
+        out = []
+        for i, o in enumerate(ops):
+            if i in ks:
+                out.append(o)
+            elif o['op'] in ('copy', 'first_handle'):
+                out.append({'op': 'nohandle', 'h': 0})      # keeps the handle numbering of the remaining operations
+        return out
+    keep = core.ddmin(idx, lambda sub: still(dict(best, ops=build(sub))), 150)
+    return dict(best, ops=build(keep))
 
 
 def sample_view(case, out):
